@@ -71,6 +71,9 @@ def extract_nested_variables(
 
             component_subs[component.name()][sp.Symbol(var.name())] = sp.Symbol(name)
             all_subs[sp.Symbol(var.qname())] = sp.Symbol(name)
+            if var.is_state():
+                # An expression that reads the derivative of a state, dot(x)
+                all_subs[sp.Symbol(f"dot({var.qname()})")] = sp.Symbol(f"d{name}_dt")
             all_subs, component_subs_ = f(var, all_subs, component_subs)
         component_subs.update(component_subs_)
         return all_subs, component_subs
@@ -272,6 +275,9 @@ def gotran_to_myokit(ode: ODE, time_component="engine", time_unit="s") -> myokit
             global_var_map[sp.Symbol(state.name)] = sp.Symbol(var.qname())
             # Models loaded from .ode text use the (real) symbol of the atom
             global_var_map[state.symbol] = sp.Symbol(var.qname())
+            # An expression may read the derivative of a state, which Myokit writes dot(x)
+            global_var_map[sp.Symbol(state_derivative.name)] = sp.Symbol(f"dot({var.qname()})")
+            global_var_map[state_derivative.symbol] = sp.Symbol(f"dot({var.qname()})")
 
         for parameter in component.parameters:
             var = comp.add_variable(parameter.name)
